@@ -484,6 +484,33 @@ func c02BigAtoms(p *Program, r *Report) bigAtoms {
 			trueBlocks = append(trueBlocks, ret.Block())
 		}
 	}
+	// `return !slices.ContainsFunc(table, QueryArgs().Has)`: true exactly when no listed sub-resource is present
+	for _, ret := range returnsOf(f) {
+		v := ret.Results[0]
+		neg := false
+		for {
+			if u, ok := v.(*ssa.UnOp); ok && u.Op == token.NOT {
+				v = u.X
+				neg = !neg
+				continue
+			}
+			break
+		}
+		if names, fn, _, ok := tableMembershipTest(p, v); ok && fn != nil && neg {
+			isHas := false
+			for _, g := range funcValuesOf(fn) {
+				if strings.Contains(fnName(g), "fasthttp.Args).Has") {
+					isHas = true
+				}
+			}
+			if isHas {
+				for _, q := range names {
+					out.query[q] = true
+				}
+				trueBlocks = append(trueBlocks, ret.Block())
+			}
+		}
+	}
 	if len(trueBlocks) == 0 {
 		r.Undecided("R-C02-3", "utils.IsBigDataAction/shape", p.Pos(f.Pos()), "cannot find where IsBigDataAction yields true")
 		return out
